@@ -238,19 +238,28 @@ func evalC17(cs *c17Case) (sig, msg string, nontrivial bool, judged bool) {
 	// patches with several changes can be judged without a model).
 	hd := ref.StripImports(hostTree).Field("Decls")
 	ed := ref.StripImports(actual).Field("Decls")
-	if len(zin.Decl) != len(zout.Decl) || len(hd.Kids) != len(zin.Decl) || len(ed.Kids) != len(hd.Kids) {
-		return "", "", false, judged // declaration patterns may change the count: correspondence by index is lost
+	if len(hd.Kids) != len(zin.Decl) || len(ed.Kids) != len(zout.Decl) {
+		return "", "", false, judged
 	}
-	untouched := make([]bool, len(hd.Kids))
-	touchedAny := false
+	// Declarations correspond in order: input declaration i is untouched if
+	// an output declaration with exactly the same code follows the partner of
+	// the previous untouched one (exact comparison: a declaration that only
+	// gained redundant parentheses was rewritten nevertheless). Declarations
+	// that a change removes, adds or turns into another kind simply have no
+	// partner.
+	partner := make([]int, len(hd.Kids)) // -1: rewritten / removed
+	next := 0
 	for i := range hd.Kids {
-		// exact comparison: a declaration that only gained redundant
-		// parentheses was rewritten nevertheless
-		untouched[i] = ref.Equal(hd.Kids[i], ed.Kids[i], ref.Exact)
-		if !untouched[i] {
-			touchedAny = true
+		partner[i] = -1
+		for j := next; j < len(ed.Kids); j++ {
+			if ref.Equal(hd.Kids[i], ed.Kids[j], ref.Exact) {
+				partner[i] = j
+				next = j + 1
+				break
+			}
 		}
 	}
+	untouched := func(i int) bool { return i >= 0 && i < len(partner) && partner[i] >= 0 }
 	// A protected zone keeps its comments, in order. Comments of rewritten
 	// declarations may be printed into a neighbouring zone (the property
 	// does not say where they go), so the zone's output may hold more; a
@@ -272,27 +281,44 @@ func evalC17(cs *c17Case) (sig, msg string, nontrivial bool, judged bool) {
 	if !eq(zin.Header, zout.Header) {
 		return "header-comments-changed", fmt.Sprintf("file header / package comments changed:\n  before: %q\n  after:  %q\n%s", zin.Header, zout.Header, show()), false, judged
 	}
-	for i := range untouched {
-		if !untouched[i] {
+	for i := range partner {
+		if !untouched(i) {
 			// neighbours commented on both sides?
-			if i > 0 && i+1 < len(untouched) && untouched[i-1] && untouched[i+1] && len(zin.Decl[i-1]) > 0 && len(zin.Decl[i+1]) > 0 {
+			if untouched(i-1) && untouched(i+1) && len(zin.Decl[i-1]) > 0 && len(zin.Decl[i+1]) > 0 {
 				nontrivial = true
 			}
 			continue
 		}
-		if !eq(zin.Decl[i], zout.Decl[i]) {
-			return "untouched-declaration-comments-changed", fmt.Sprintf("the comments of top-level declaration #%d, in which nothing was rewritten, changed:\n  before: %q\n  after:  %q\n%s", i, zin.Decl[i], zout.Decl[i], show()), nontrivial, judged
+		if j := partner[i]; !eq(zin.Decl[i], zout.Decl[j]) {
+			return "untouched-declaration-comments-changed", fmt.Sprintf("the comments of top-level declaration #%d (#%d of the output), in which nothing was rewritten, changed:\n  before: %q\n  after:  %q\n%s", i, j, zin.Decl[i], zout.Decl[j], show()), nontrivial, judged
 		}
 	}
-	// (3) free-standing comments between two untouched declarations
-	for i := 0; i <= len(untouched); i++ {
-		prevOK := i == 0 || untouched[i-1]
-		nextOK := i == len(untouched) || untouched[i]
-		if prevOK && nextOK && !eq(zin.Gap[i], zout.Gap[i]) {
-			return "free-standing-comments-changed", fmt.Sprintf("free-standing comments between untouched declarations #%d and #%d changed:\n  before: %q\n  after:  %q\n%s", i-1, i, zin.Gap[i], zout.Gap[i], show()), nontrivial, judged
+	// (3) free-standing comments between two untouched declarations that are
+	// neighbours before and after (and before the first / after the last
+	// declaration when those are untouched)
+	for i := 0; i <= len(partner); i++ {
+		var gi, gj int
+		switch {
+		case i == 0:
+			if len(partner) == 0 || partner[0] != 0 {
+				continue
+			}
+			gi, gj = 0, 0
+		case i == len(partner):
+			if partner[i-1] != len(ed.Kids)-1 {
+				continue
+			}
+			gi, gj = i, len(ed.Kids)
+		default:
+			if !untouched(i-1) || !untouched(i) || partner[i] != partner[i-1]+1 {
+				continue
+			}
+			gi, gj = i, partner[i]
+		}
+		if !eq(zin.Gap[gi], zout.Gap[gj]) {
+			return "free-standing-comments-changed", fmt.Sprintf("free-standing comments between untouched declarations #%d and #%d changed:\n  before: %q\n  after:  %q\n%s", i-1, i, zin.Gap[gi], zout.Gap[gj], show()), nontrivial, judged
 		}
 	}
-	_ = touchedAny
 	return "", "", nontrivial, judged
 }
 
@@ -307,6 +333,16 @@ var c17Extra = []string{
 	"@@\nvar n, m identifier\nvar v, w expression\n@@\n-const (\n-\tn = v\n-\tm = w\n-)\n+var (\n+\tn = v\n+\tm = w\n+)\n",
 	"@@\nvar f identifier\n@@\n-func f() {\n+func f(_ int) {\n \t...\n }\n",
 	"@@\nvar x expression\n@@\n-return x\n+return (x)\n",
+	// a top-level declaration is replaced by one of another kind, or removed
+	"@@\nvar f identifier\nvar v expression\n@@\n-func f() string { return v }\n+const f = v\n",
+	"@@\nvar f identifier\n@@\n-func f() {\n-\t...\n-}\n+var f = func() {\n+\t...\n+}\n",
+	"@@\nvar n identifier\nvar v expression\n@@\n-var n = v\n+func n() any { return v }\n",
+	"@@\nvar n identifier\nvar v expression\n@@\n-const n = v\n+func n() any { return v }\n",
+	"@@\nvar n identifier\nvar t expression\n@@\n-type n t\n+var n t\n",
+	"@@\nvar n identifier\nvar v expression\n@@\n-var n = v\n",
+	"@@\nvar n identifier\nvar v expression\n@@\n-const n = v\n",
+	"@@\nvar f identifier\n@@\n-func f() {\n-\t...\n-}\n",
+	"@@\nvar n identifier\nvar t expression\n@@\n-type n t\n",
 }
 
 var c17Opts = modelOpts{
